@@ -165,8 +165,8 @@ Lemma C08_generator_all cfg : C08_generator_statement cfg.
 Proof.
   split; [|split].
   - intros rho e S S' G. apply lift_tree_level; try assumption. apply generator_file_preserves, G.
-  - destruct cfg as [[]]; vm_compute; (split; [reflexivity|split; [reflexivity|discriminate]]).
-  - destruct cfg as [[]]; cbn [ug_single_arg]; vm_compute; [reflexivity|split; [reflexivity|split; [reflexivity|discriminate]]].
+  - destruct cfg as [[] [] []]; vm_compute; (split; [reflexivity|split; [reflexivity|discriminate]]).
+  - destruct cfg as [[] [] []]; cbn [ug_single_arg]; vm_compute; try reflexivity; (split; [reflexivity|split; [reflexivity|discriminate]]).
 Qed.
 
 (** * use-set-literal: no guard *)
